@@ -174,12 +174,103 @@ async def run_cases(specs: List[Dict[str, Any]], res: ShardResult, prop: str = "
                             "received": f"{rec.method} {rec.raw_path[:160]}", "body": rec.body.decode('utf-8', 'replace')[:160]})
 
 
+# ---------------------------------------------------------------------------------------------
+# "timestamps are current" under throttling: virtual time, in-memory transport
+# ---------------------------------------------------------------------------------------------
+
+class _VResp:
+    status, ok, reason = 200, True, "OK"
+    headers = {"Content-Type": "application/json"}
+
+    async def json(self):
+        return {}
+
+    async def __aenter__(self):
+        return self
+
+    async def __aexit__(self, *a):
+        return False
+
+
+class _VTransport:
+    def __init__(self, loop):
+        self.loop = loop
+        self.seen: List[tuple] = []
+
+    def _req(self, url, headers=None, params=None, **kw):
+        self.seen.append((self.loop.time(), str(url), dict(headers or {}), dict(params or {})))
+        return _VResp()
+
+    get = post = put = delete = _req
+
+
+def run_throttled_case(case: Dict[str, Any], res: ShardResult) -> None:
+    """A burst of signed requests through a client with a token bucket: the signed timestamp of every request must be
+    the (virtual) instant at which it is sent, not the instant at which the caller asked for it."""
+    import urllib.parse
+    from vf import vclock
+    import basana.core.token_bucket as tb
+    with vclock.virtual_time() as loop:
+        tr = _VTransport(loop)
+        lim = tb.TokenBucketLimiter(case["tpp"], case["period"], case["init"])
+        ov = {"api": {"http": {"base_url": "http://x/"}}}
+        if case["client"] == "binance":
+            from basana.external.binance import client as bn_client
+            cli = bn_client.APIClient(calls.KEY, calls.SECRET, session=tr, tb=lim, config_overrides=ov)
+
+            async def call():
+                await cli.spot_account.get_open_orders("BTCUSDT")
+        else:
+            from basana.external.bitstamp import client as bs_client
+            cli = bs_client.APIClient(calls.KEY, calls.SECRET, session=tr, tb=lim, config_overrides=ov)
+
+            async def call():
+                await cli.get_account_balances()
+
+        async def main():
+            await asyncio.gather(*[call() for _ in range(case["n"])])
+
+        loop.run_until_complete(main())
+        base_ts = vclock.EPOCH_TS
+    res.evaluations += 1
+    res.count("throttled_requests", len(tr.seen))
+    worst = 0.0
+    for (t, url, headers, params) in tr.seen:
+        if case["client"] == "binance":
+            qs = dict(urllib.parse.parse_qsl(urllib.parse.urlsplit(url).query))
+            qs.update({k: str(v) for k, v in params.items()})
+            ts = qs.get("timestamp")
+        else:
+            ts = headers.get("X-Auth-Timestamp")
+        if ts is None or not str(ts).isdigit():
+            res.violate(Violation("C16", "timestamp_missing", f"{case['client']}: throttled request without timestamp",
+                                  scenario={"throttled": case}))
+            continue
+        age = (base_ts + t) - int(ts) / 1000.0
+        worst = max(worst, age)
+        if abs(age) > 0.002:
+            res.violate(Violation("C16", "timestamp_not_current",
+                                  f"{case['client']}: request sent at virtual +{t:.3f}s carries a signed timestamp {age:.3f}s "
+                                  f"old (throttled by a {case['tpp']}/{case['period']}s token bucket)",
+                                  scenario={"throttled": case}))
+            break
+    if worst <= 0.002 and len(tr.seen) > case["tpp"]:
+        res.nontrivial.add(common.digest(["throttled", case["client"], case["tpp"], case["period"], case["n"]]))
+
+
+def gen_throttled(r) -> Dict[str, Any]:
+    return {"client": r.choice(["binance", "bitstamp"]), "tpp": r.choice([1, 2, 5]), "period": r.choice([1, 2, 10]),
+            "init": r.choice([0, 1]), "n": r.randint(3, 12)}
+
+
 def run_shard(ctx: Context, res: ShardResult) -> None:
     sen = sentinel.Sentinel(WATCH, lines=False)
     sen.start()
     try:
         specs = [calls.gen_spec(ctx.rng("c16", i)) for i in ctx.case_ids()]
         asyncio.run(run_cases(specs, res))
+        for k in range(max(10, ctx.cases // 100)):
+            run_throttled_case(gen_throttled(ctx.rng("c16thr", ctx.shard, k)), res)
     finally:
         sen.stop()
     for name, n in sen.calls.items():
@@ -187,13 +278,17 @@ def run_shard(ctx: Context, res: ShardResult) -> None:
 
 
 def replay(prop: str, scenario: Dict[str, Any], res: ShardResult) -> None:
-    asyncio.run(run_cases([scenario], res))
+    if "throttled" in scenario:
+        run_throttled_case(scenario["throttled"], res)
+    else:
+        asyncio.run(run_cases([scenario], res))
 
 
 def finalize(prop: str, tier: str, merged: ShardResult) -> Dict[str, Any]:
     inc = []
     c = merged.counters
-    for k, n in (("signatures_verified", 500), ("auth_sig", 200), ("auth_bitstamp", 100), ("auth_key", 10)):
+    for k, n in (("signatures_verified", 500), ("auth_sig", 200), ("auth_bitstamp", 100), ("auth_key", 10),
+                 ("throttled_requests", 100)):
         if c.get(k, 0) < n:
             inc.append(f"'{k}' observed only {c.get(k, 0)} times (< {n})")
     return {"inconclusive": inc}
